@@ -21,6 +21,10 @@ def make_packages(seed, npk, per_file, files_per_pkg=1, malformed_frac=0.0, opts
                 k += 1
             files.append(dict(fname="%s.go" % "abcdef"[fi], decls=decls))
         pkgs.append(dict(name="p%d" % pi, files=files, kind="valid"))
+    # systematic stream (C05): all async masks x all discovery orders of 2..3 parameterless providers
+    sysd = list(declgen.systematic_leaves(9000))
+    for i in range(0, len(sysd), 14):
+        pkgs.append(dict(name="y%d" % (i // 14), files=[dict(fname="a.go", decls=sysd[i:i + 14])], kind="valid"))
     return pkgs
 
 
@@ -30,18 +34,18 @@ def make_malformed_packages(seed, count):
     pkgs = []
     k = 0
     tries = 0
-    kinds = ["cycle", "dup", "orphan"]
+    kinds = ["cycle", "dup", "orphan", "dupfield"]
     while len(pkgs) < count and tries < count * 20:
         tries += 1
         base = declgen.gen_decl(rnd, 5000 + k, dict(n=rnd.choice([2, 3, 4, 5, 6, 8])))
-        kind = kinds[len(pkgs) % 3]
+        kind = kinds[len(pkgs) % 4]
         d = declgen.mutate_malformed(rnd, base, kind)
         if d is None:
             continue
         k += 1
         # a second, valid declaration in the same file must not be emitted either
         files = [dict(fname="a.go", decls=[d])]
-        pkgs.append(dict(name="m%d" % len(pkgs), files=files, kind=kind))
+        pkgs.append(dict(name="m%d" % len(pkgs), files=files, kind=d["kind"]))
     return pkgs
 
 
@@ -173,9 +177,20 @@ def observe_func(d, fn, imports=None):
                     raise Unparsed("unknown field %s.%s" % key)
                 if op["lhs"][0] != "_":
                     varmap[op["lhs"][0]] = ("var", fidx[key], 0)
+    defects = []
+    sup, _ = declgen.supplier_map(d)
     def src(v):
         m = varmap.get(v)
         if m is None:
+            # declared in the var block but never assigned: identify it through its type
+            t = unalias(vartype.get(v, ""), imports)
+            if sup and t in sup:
+                key, gi = sup[t]
+                pi = fidx.get((d["provs"][key[1]]["type"], key[2])) if isinstance(key, tuple) else key
+                if pi is not None:
+                    if ("unassigned", v) not in defects:
+                        defects.append(("unassigned", v))
+                    return ("var", pi, gi)
             raise Unparsed("use of unknown variable %s" % v)
         return m
     def chsrc(c):
@@ -239,6 +254,7 @@ def observe_func(d, fn, imports=None):
     results = fn["results"]
     return dict(name=fn["name"], params=[p["type"] for p in params], param_names=[p["name"] for p in params], results=results,
                 reterr=(len(results) == 2 and results[1] == "error"), main=main, gos=gos, go_first=go_first,
+                defects=["variable %s is read but never assigned" % v for _, v in defects],
                 eg=fn["eg"], has_var=fn["has_var"], vars=fn["vars"], surface=msurf, tt=tt)
 
 
@@ -280,6 +296,60 @@ def coq_obs(ob):
     return "XAcc (%s) %s [%s]" % (sig, coq_items(ob["main"], tt), "; ".join(coq_items(g, tt) for g in ob["gos"]))
 
 
+def obs_prog(d, ob):
+    """The observed thread program as a Sem2.prog term plus a rank list computed by topological sorting of its
+    ordering constraints (thread order, awaited producer before consumer)."""
+    tt = ob["tt"]
+    nfields = sum(len(p["fields"]) for p in d["provs"] if p["kind"] == "struct")
+    base = len(d["provs"]) + nfields
+    def node(s):
+        return base + tt[s[1]] if s[0] == "arg" else s[1]
+    def var(s):
+        return "(%d, %d)" % (node(s), 0 if s[0] == "arg" else s[2])
+    def nrets(pi):
+        return len(d["provs"][pi]["provides"]) if pi < len(d["provs"]) else 1
+    threads = [ob["main"]] + ob["gos"]
+    def item(it):
+        return "{| it_node := %d; it_args := [%s]; it_waits := [%s]; it_nrets := %d; it_closes := [%s]; it_fallible := %s |}" % (
+            it["pi"], "; ".join(var(a) for a in it["args"]), "; ".join(var(a) for a in it["waits"]), nrets(it["pi"]),
+            "; ".join("(%d, %d)" % (it["pi"], c) for c in it["closes"]), str(it["fall"]).lower())
+    argnodes = sorted({base + tt[t] for t in ob["params"] if t in tt})
+    prog = "{| p_threads := [%s]; p_argnodes := [%s]; p_reterr := %s |}" % (
+        "; ".join("[" + "; ".join(item(it) for it in th) + "]" for th in threads), "; ".join(map(str, argnodes)), str(ob["reterr"]).lower())
+    # rank by Kahn over constraints
+    nodes = [it["pi"] for th in threads for it in th]
+    succ = {n: set() for n in nodes}
+    indeg = {n: 0 for n in nodes}
+    def edge(a, b):
+        if a in succ and b in succ and b not in succ[a] and a != b:
+            succ[a].add(b)
+            indeg[b] += 1
+    for th in threads:
+        for a, b in zip(th, th[1:]):
+            edge(a["pi"], b["pi"])
+        for it in th:
+            for w in it["waits"]:
+                if w[0] == "var":
+                    edge(w[1], it["pi"])
+    rank = {}
+    q = sorted(n for n in nodes if indeg[n] == 0)
+    k = 1
+    while q:
+        n = q.pop(0)
+        if n in rank:
+            continue
+        rank[n] = k
+        k += 1
+        for m in sorted(succ[n]):
+            indeg[m] -= 1
+            if indeg[m] == 0:
+                q.append(m)
+    for n in nodes:
+        rank.setdefault(n, 0)      # cyclic constraints: no rank exists, the checker will say so
+    rk = "[" + "; ".join("(%d, %d)" % (n, r) for n, r in sorted(rank.items())) + "]"
+    return prog, rk
+
+
 REJ = {"dup": 1, "orphan": 2, "cycle": 3}
 
 
@@ -293,10 +363,12 @@ def classify_error(stderr):
     return "other"
 
 
-def run_cases(cases, workdir, name="cases"):
-    """cases: list of (id:int, coq_decl:str, coq_obs:str). Returns (ok, mismatching ids, log)."""
+def run_cases(cases, workdir, name="cases", progs=None):
+    """cases: list of (id:int, coq_decl:str, coq_obs:str); progs: {id: (Sem2.prog term, rank list)}.
+    Returns (ok, mismatching (id, code), log, failing checker (id, code))."""
+    progs = progs or {}
     if not cases:
-        return True, [], ""
+        return True, [], "", []
     shards = []
     per = 60
     for i in range(0, len(cases), per):
@@ -305,12 +377,17 @@ def run_cases(cases, workdir, name="cases"):
         sh = shards[ix]
         path = os.path.join(workdir, "%s_%d.v" % (name, ix))
         with open(path, "w") as f:
-            f.write("From Coq Require Import List NArith. Import ListNotations.\nRequire Import Gen Corr GenU CorrS.\n")
+            f.write("From Coq Require Import List NArith. Import ListNotations.\nRequire Import Gen Corr GenU CorrS Sem2 Check.\n")
             f.write("Definition cases : list (nat * (decl * xres)) := [\n" + ";\n".join("(%d, (%s, %s))" % c for c in sh) + "].\n")
             f.write("Definition M := Eval vm_compute in xmismatches cases.\nPrint M.\n")
+            pl = [(c[0],) + progs[c[0]] for c in sh if c[0] in progs]
+            f.write("Definition obsprogs : list (nat * (Sem2.prog * list (nat * nat))) := [\n" + ";\n".join("(%d, (%s, %s))" % x for x in pl) + "].\n")
+            f.write("Definition K := Eval vm_compute in flat_map (fun c => match check_code (fst (snd c)) (snd (snd c)) with 0 => [] | k => [(fst c, k)] end) obsprogs.\nPrint K.\n")
+            f.write("Definition E := Eval vm_compute in flat_map (fun c => match fst (explore_code (fst (snd c))) with 0 => [] | k => [(fst c, k + 10)] end) obsprogs.\nPrint E.\n")
         rc, out = vlib.coqc_file(path, timeout=900)
         return rc, out
     bad = []
+    chk = []
     log = ""
     ok = True
     with ThreadPoolExecutor(max_workers=12) as ex:
@@ -327,14 +404,26 @@ def run_cases(cases, workdir, name="cases"):
             body = m.group(1).strip()
             if body:
                 bad += [(int(a), int(b)) for a, b in re.findall(r"\((\d+),\s*(\d+)\)", body)]
-    return ok, bad, log
+            m = re.search(r"K\s*=\s*\[(.*?)\]\s*:\s*list \(nat \* nat\)", out, re.S)
+            if not m:
+                ok = False
+                log += "cannot parse checker output: " + out[-500:]
+                continue
+            chk += [(int(a), int(b)) for a, b in re.findall(r"\((\d+),\s*(\d+)\)", m.group(1))]
+            m = re.search(r"E\s*=\s*\[(.*?)\]\s*:\s*list \(nat \* nat\)", out, re.S)
+            if not m:
+                ok = False
+                log += "cannot parse explorer output: " + out[-500:]
+                continue
+            chk += [(int(a), int(b)) for a, b in re.findall(r"\((\d+),\s*(\d+)\)", m.group(1))]
+    return ok, bad, log, chk
 
 
 # ------------------------------------------------------------------ the stage
 
 def stage(seed, tier, want_malformed=True):
     """Runs the static stage; returns a result dict (also cached on disk by repo hash/seed/tier)."""
-    key = "S-%s-%s-%s" % (vlib.repo_hash(), seed, tier)
+    key = "S-%s-%s-%s" % (vlib.repo_hash() + vlib.tools_hash(), seed, tier)
     cpath = os.path.join(vlib.CACHE, "stage", key + ".json")
     if os.path.exists(cpath) and not os.environ.get("VERIF_NOCACHE"):
         return json.load(open(cpath))
@@ -417,8 +506,11 @@ def _stage(seed, tier, want_malformed):
                         rec["problems"].append("accepted run emitted no function %s" % d["name"])
                         cases.append((cid, coq_decl(d, tt), "XRej 0"))
                     else:
+                        fnrec = funcs[d["name"]]
+                        rec["sig"] = dict(params=[unalias(p["type"], bf["imports"]) for p in fnrec["params"]],
+                                          results=[unalias(t, bf["imports"]) for t in fnrec["results"]])
                         try:
-                            ob = observe_func(d, funcs[d["name"]], bf["imports"])
+                            ob = observe_func(d, fnrec, bf["imports"])
                             rec["obs"] = ob
                             cases.append((cid, coq_decl(d, tt), coq_obs(ob)))
                         except Unparsed as ex:
@@ -431,7 +523,22 @@ def _stage(seed, tier, want_malformed):
                 if got != names:
                     records.append(dict(id=0, pkg=p["name"], file=f["fname"], name="<file>", kind="valid", rc=rc, decl=None, stderr="",
                                         problems=["functions emitted %s != declarations %s" % (got, names)], obs=None))
-    ok, bad, log = run_cases(cases, mod, "cases_s")
+    progs = {}
+    for r in records:
+        if r.get("obs"):
+            try:
+                progs[r["id"]] = obs_prog(r["decl"], r["obs"])
+            except Exception as ex:
+                r["problems"].append("unparsed: cannot express the observed program: %r" % ex)
+    ok, bad, log, chk = run_cases(cases, mod, "cases_s", progs)
+    for r in records:
+        codes = [c for i, c in chk if i == r["id"]]
+        r["checker_code"] = ([c for c in codes if c < 10] or [0])[0]     # 1: not well-synchronised (wf), 2: rank conditions fail
+        r["explore_code"] = ([c - 10 for c in codes if c >= 10] or [0])[0]  # 1: model run reads an unwritten variable, 2: model run deadlocks
+        if r["id"] in progs:
+            r["obs_prog"] = progs[r["id"]][0]
+        if r.get("obs") and r["obs"].get("defects"):
+            r["problems"] += r["obs"]["defects"]
     badmap = dict(bad)
     for r in records:
         r["model_mismatch"] = r["id"] in badmap
